@@ -208,6 +208,18 @@ func libSigner(km refcose.KeyMat, viaKey bool) (cose.Signer, error) {
 // says is attached to a layer whose decoded unprotected header is un.
 // usePointer alternates pointer / value parents.
 func verifyGroups(un cose.UnprotectedHeader, groups []gen.CsigGroup, parent any, where string) error {
+	return verifyGroupsWith(un, groups, parent, where, nil)
+}
+
+// verifyGroupsWith: like verifyGroups, every verifier passed through wrap first.
+func verifyGroupsWith(un cose.UnprotectedHeader, groups []gen.CsigGroup, parent any, where string, wrap func(cose.Verifier) cose.Verifier) error {
+	libVerifier := func(km refcose.KeyMat, viaKey bool) (cose.Verifier, error) {
+		v, err := libVerifier(km, viaKey)
+		if err == nil && wrap != nil {
+			v = wrap(v)
+		}
+		return v, err
+	}
 	for _, g := range groups {
 		v, ok := un[int64(g.Label)]
 		if !ok {
@@ -261,7 +273,7 @@ func verifyGroups(un cose.UnprotectedHeader, groups []gen.CsigGroup, parent any,
 			if i%2 == 1 {
 				p = *list[i]
 			}
-			if err := verifyGroups(list[i].Headers.Unprotected, c.Groups, p, fmt.Sprintf("%s/%d[%d]", where, g.Label, i)); err != nil {
+			if err := verifyGroupsWith(list[i].Headers.Unprotected, c.Groups, p, fmt.Sprintf("%s/%d[%d]", where, g.Label, i), wrap); err != nil {
 				return err
 			}
 		}
@@ -334,6 +346,18 @@ func reenterLibrary() {
 		pad[i] = 0xee
 	}
 	rnd := refcose.NewEntropy(nil)
+	// the shortest structures first: whatever scratch memory the outer operation has just released is
+	// large enough for them
+	tiny := &cose.Sign1Message{Headers: cose.Headers{Protected: cose.ProtectedHeader{int64(1): cose.AlgorithmEdDSA}}, Payload: []byte{}}
+	_ = tiny.Sign(rnd, nil, &bridge.SpySigner{Alg: cose.AlgorithmEdDSA})
+	_ = tiny.Verify(nil, &bridge.SpyVerifier{Alg: cose.AlgorithmEdDSA})
+	if sig, err := cose.Countersign0(rnd, &bridge.SpySigner{Alg: cose.AlgorithmEdDSA}, tiny, nil); err == nil {
+		_ = cose.VerifyCountersign0(&bridge.SpyVerifier{Alg: cose.AlgorithmEdDSA}, tiny, nil, sig)
+	}
+	if w, err := tiny.MarshalCBOR(); err == nil {
+		var back cose.Sign1Message
+		_ = back.UnmarshalCBOR(w)
+	}
 	m := &cose.Sign1Message{Headers: cose.Headers{Protected: cose.ProtectedHeader{int64(1): cose.AlgorithmEdDSA, "nested": pad}}, Payload: pad}
 	_ = m.Sign(rnd, []byte("nested"), &bridge.SpySigner{Alg: cose.AlgorithmEdDSA})
 	_ = m.Verify([]byte("nested"), &bridge.SpyVerifier{Alg: cose.AlgorithmEdDSA})
